@@ -161,7 +161,7 @@ func sliceOptim() *slice {
 		Bin("+", TStr, TStr, TStr),
 		ArrAs(TIntArr, TInt), ArrAs(TIntArr, TInt, TInt), ArrAs(TStrArr, TStr), ArrAs(TStrArr, TStr, TStr), Arr(TInt, TStr), Arr(),
 		Bin("..", TInt, TInt, TIntArr),
-		Bin("==", TIntArr, TIntArr, TBool),
+		Bin("==", TIntArr, TIntArr, TBool), Bin("==", TFloat, TInt, TBool), Bin("==", TInt, TFloat, TBool),
 		Len(TIntArr), Len(TStrArr), Len(TAnyArr),
 		Call("TakesI8", TI8, TInt), Call("TakesU8", TU8, TInt), Call("TakesI64", TI64, TInt), Call("TakesF32", TF32, TInt),
 		Call("TakesF64", TFloat, TInt), Call("TakesF64", TFloat, TFloat), Call("TakesAny", TAny, TInt), Call("TakesAny", TAny, TIntArr),
@@ -197,12 +197,13 @@ func sliceNestType() *slice {
 		Bin("and", TBool, TBool, TBool),
 		Bin("in", TFloat, TIntArr, TBool), Bin("in", TInt, TIntArr, TBool),
 		Bin("==", TInt, TInt, TBool), Bin("==", TFloat, TInt, TBool), Bin("==", TStr, TStr, TBool),
+		Var("S", TStr), Bin("matches", TStr, TStr, TBool),
 	}
 	for _, a := range []Ty{TFloatArr, TIntArr, TStrArr} {
 		rules = append(rules, Builtin("all", a, TBool, TBool), Builtin("any", a, TBool, TBool), Builtin("count", a, TBool, TInt))
 	}
 	rules = append(rules, Builtin("filter", TFloatArr, TBool, TFloatArr), Builtin("filter", TIntArr, TBool, TIntArr),
-		Builtin("map", TFloatArr, TBool, TAnyArr), Builtin("map", TIntArr, TBool, TAnyArr))
+		Builtin("map", TFloatArr, TBool, TAnyArr), Builtin("map", TIntArr, TBool, TAnyArr), Builtin("map", TStrArr, TBool, TAnyArr), Builtin("filter", TStrArr, TBool, TStrArr))
 	return &slice{name: "nesttype", g: NewGrammar(rules), tops: []NT{nt(TBool), nt(TFloatArr), nt(TIntArr), nt(TAnyArr), nt(TInt)},
 		modes: lib.AllModes, maxN: map[string]int{"quick": 9, "thorough": 10}}
 }
@@ -216,4 +217,17 @@ func sliceAliases() *slice {
 		Un("+", TInt, TInt), Call("Pos", TBool, TInt),
 	}
 	return &slice{name: "aliases", g: NewGrammar(rules), tops: []NT{nt(TBool)}, modes: lib.AllModes, maxN: map[string]int{"quick": 5, "thorough": 6}}
+}
+
+// elvis: the undocumented `a ?: b` form in every operand position (bytecode shape only; it has no reference semantics).
+func sliceElvis() *slice {
+	rules := []*Rule{
+		Var("B", TBool), Var("I", TInt), Lit("1", TInt, 1), Var("A", TIntArr), Hash(TInt), Lit("false", TBool, false), Lit("0", TInt, 0),
+		{Op: "elvis", Out: TInt, In: []Slot{{T: TInt, Operand: true, Closure: -1}, {T: TInt, Operand: true, Closure: -1}}, Fmt: "%s ?: %s"},
+		{Op: "elvis", Out: TBool, In: []Slot{{T: TBool, Operand: true, Closure: -1}, {T: TBool, Operand: true, Closure: -1}}, Fmt: "%s ?: %s"},
+		ArrAs(TAnyArr, TInt, TInt), ArrAs(TAnyArr, TBool, TInt), Call("Id", TInt, TInt), Call("Add", TInt, TInt, TInt), MapLit([]string{"a", "b"}, TBool, TInt),
+		Builtin("map", TIntArr, TInt, TIntArr), Builtin("filter", TIntArr, TBool, TIntArr), Bin("+", TInt, TInt, TInt), Bin(">", TInt, TInt, TBool), Un("not", TBool, TBool),
+		Cond(TInt), Index(TIntArr, TInt, TInt),
+	}
+	return &slice{name: "elvis", g: NewGrammar(rules), tops: []NT{nt(TInt), nt(TBool), nt(TAnyArr), nt(TAnyMap), nt(TIntArr)}, modes: lib.AllModes, maxN: map[string]int{"quick": 6, "thorough": 7}}
 }
